@@ -181,7 +181,37 @@ func CheckC10(h *History, blk *BlockRecord) []Violation {
 		c, still := curMTP[m.Id]
 		changed := !still || !c.Liabilities.Equal(m.Liabilities) || !c.Collateral.Equal(m.Collateral)
 		if !changed {
-			// custody may only drop (interest, funding paid) unless funding was received
+			// size, collateral and principal are as they were; the custody (what the owner will be paid from) may only
+			// have dropped by "interest and funding that had already accrued": the amount one settlement with the
+			// module's own functions takes on the previous state at this block's time – however often, and in however
+			// many lists, third parties named the position
+			if c.Custody.LT(m.Custody) && !feedInBlock && m.Custody.GTE(sdkmath.NewInt(1_000_000)) && m.Liabilities.GTE(sdkmath.NewInt(1_000_000)) {
+				if ctx, ok := get(); ok {
+					k := h.W.App.PerpetualKeeper
+					if amm, found := h.W.App.AmmKeeper.GetPool(ctx, m.AmmPoolId); found {
+						mm := m
+						k.UpdateMTPBorrowInterestUnpaidLiability(ctx, &mm)
+						if ppool, pfound := k.GetPool(ctx, m.AmmPoolId); pfound {
+							if _, err := k.SettleMTPBorrowInterestUnpaidLiability(ctx, &mm, &ppool, amm); err == nil {
+								_ = k.SettleFunding(ctx, &mm, &ppool, amm)
+							}
+						}
+						expected := m.Custody.Sub(mm.Custody) // what one settlement takes
+						if expected.IsNegative() {
+							expected = sdkmath.ZeroInt()
+						}
+						taken := m.Custody.Sub(c.Custody)
+						// the interest part is swapped through the pool at the state of that moment: 5 % per other
+						// pool-touching tx of the block on top of the expected amount, plus rounding
+						allowed := expected.MulRaw(int64(105 + 5*othersInBlock)).QuoRaw(100).AddRaw(10)
+						h.Labels["c10-custody-drop-checked"]++
+						if taken.GT(allowed) {
+							out = append(out, Violation{Sig: "C10/custody-drained-beyond-accrued", Detail: fmt.Sprintf("MTP %d (%s) of %s kept its size, collateral and principal, but its custody fell %s -> %s (-%s) in a block in which its owner did nothing; interest and funding accrued up to this block's time take %s (allowed %s) (height %d; %s)",
+								m.Id, m.Position, h.W.nameOf(m.Address), m.Custody, c.Custody, taken, expected, allowed, cur.Height, blockSummary(blk))})
+						}
+					}
+				}
+			}
 			continue
 		}
 		h.Labels["c10-mtp-altered-by-third-party"]++
